@@ -107,6 +107,47 @@ type MatchInfo struct {
 	// (the clause then does not match; for OPTIONAL clauses the implementation
 	// documents a NULL cell instead — C10 treats both as acceptable).
 	Inapplicable []string
+	// PAnchor / OAnchor: the anchor matched by an "id"@[?lo,?hi] form whose sides are
+	// bindings; the interval can only be tested once those bindings have values
+	// (AliasBoundsHold), which another clause provides.
+	PAnchor, OAnchor *model.TimeSpec
+}
+
+// AliasBoundsHold tests the binding sides of the clause's "id"@[?lo,?hi] forms against
+// the anchors matched by mi under env: each named binding must hold a time value and
+// lower <= anchor <= upper (closed, as for constant sides).
+func AliasBoundsHold(c Clause, mi MatchInfo, env Env) bool {
+	test := func(b *Bound, a *model.TimeSpec) bool {
+		if b == nil || a == nil {
+			return true
+		}
+		if b.LoB != "" {
+			v, ok := env[b.LoB]
+			if !ok || v.Kind != 'T' || inst(*a).Before(inst(*v.T)) {
+				return false
+			}
+		}
+		if b.HiB != "" {
+			v, ok := env[b.HiB]
+			if !ok || v.Kind != 'T' || inst(*a).After(inst(*v.T)) {
+				return false
+			}
+		}
+		return true
+	}
+	return test(c.P.Bound, mi.PAnchor) && test(c.O.Bound, mi.OAnchor)
+}
+
+// HasAliasBound reports whether a clause list uses a binding as a side of a time interval.
+func HasAliasBound(cs []Clause) bool {
+	for _, c := range cs {
+		for _, b := range []*Bound{c.P.Bound, c.O.Bound} {
+			if b != nil && (b.LoB != "" || b.HiB != "") {
+				return true
+			}
+		}
+	}
+	return false
 }
 
 // Match decides whether clause c matches triple t (ignoring the global bound)
@@ -152,6 +193,9 @@ func Match(c Clause, t model.TripleSpec) (mi MatchInfo, ok bool) {
 		if t.P.ID != c.P.Bound.ID || t.P.Anchor == nil || !inBound(*t.P.Anchor, c.P.Bound) {
 			return mi, false
 		}
+		if c.P.Bound.LoB != "" || c.P.Bound.HiB != "" {
+			mi.PAnchor = t.P.Anchor
+		}
 	default:
 		set(c.P.Binding, predVal(t.P))
 	}
@@ -191,6 +235,9 @@ func Match(c Clause, t model.TripleSpec) (mi MatchInfo, ok bool) {
 	case c.O.Bound != nil:
 		if t.O.P == nil || t.O.P.ID != c.O.Bound.ID || t.O.P.Anchor == nil || !inBound(*t.O.P.Anchor, c.O.Bound) {
 			return mi, false
+		}
+		if c.O.Bound.LoB != "" || c.O.Bound.HiB != "" {
+			mi.OAnchor = t.O.P.Anchor
 		}
 	default:
 		set(c.O.Binding, ov)
@@ -254,10 +301,15 @@ func Candidates(d Dataset, from []string) []Candidate {
 // Solve returns the environments of the conjunctive pattern: one per choice of
 // a matching (graph, triple) for every clause such that all bindings agree.
 func Solve(clauses []Clause, cands []Candidate, g *Global) []Env {
-	envs := []Env{{}}
+	type partial struct {
+		env Env
+		mis []MatchInfo // only kept when some clause has a binding as an interval side
+	}
+	alias := HasAliasBound(clauses)
+	parts := []partial{{env: Env{}}}
 	for _, c := range clauses {
-		var next []Env
-		for _, e := range envs {
+		var next []partial
+		for _, pt := range parts {
 			for _, cand := range cands {
 				if !GlobalAllows(g, cand.Triple) {
 					continue
@@ -266,13 +318,34 @@ func Solve(clauses []Clause, cands []Candidate, g *Global) []Env {
 				if !ok {
 					continue
 				}
-				merged, agree := mergeEnv(e, mi.Env)
+				merged, agree := mergeEnv(pt.env, mi.Env)
 				if agree {
-					next = append(next, merged)
+					np := partial{env: merged}
+					if alias {
+						np.mis = append(append([]MatchInfo{}, pt.mis...), mi)
+					}
+					next = append(next, np)
 				}
 			}
 		}
-		envs = next
+		parts = next
+	}
+	envs := make([]Env, 0, len(parts))
+	for _, pt := range parts {
+		ok := true
+		if alias {
+			// the binding sides of intervals are tested against the complete assignment:
+			// the clause providing the binding may be written before or after
+			for i, c := range clauses {
+				if !AliasBoundsHold(c, pt.mis[i], pt.env) {
+					ok = false
+					break
+				}
+			}
+		}
+		if ok {
+			envs = append(envs, pt.env)
+		}
 	}
 	return envs
 }
